@@ -2,11 +2,13 @@
 (* One state per (tree, environment); a tree is emitted for an environment only when its value is exactly defined. *)
 EXTENDS Trees, TraceIO
 VARIABLE sc
-Init == sc \in {[tree |-> t, env |-> e] : t \in AllTrees, e \in DOMAIN Envs}
+\* initForm: how the initial values of a, b, c are spelled ("plain" 3, "upperE" 3E0, "lowerE" 3e0)
+Init == sc \in {[tree |-> t, env |-> e, initForm |-> "plain"] : t \in AllTrees, e \in DOMAIN Envs}
+               \cup {[tree |-> t, env |-> e, initForm |-> f] : t \in {A, Bin("plus", A, B)}, e \in DOMAIN Envs, f \in {"upperE", "lowerE"}}
 Next == UNCHANGED sc
 Spec == Init /\ [][Next]_sc
 Val == Eval(sc.tree, Envs[sc.env])
-Emit == IsDef(Val) => EmitScenario([env |-> sc.env, envv |-> Envs[sc.env], tree |-> sc.tree, expect |-> Val, ops |-> Ops(sc.tree)])
+Emit == IsDef(Val) => EmitScenario([env |-> sc.env, initForm |-> sc.initForm, envv |-> Envs[sc.env], tree |-> sc.tree, expect |-> Val, ops |-> Ops(sc.tree)])
 Q2 == Cn(-3, 2)
 \* sanity of the evaluator on a few identities (the design half)
 Sanity == /\ Eval(Bin("minus", A, Bin("minus", B, C)), Envs[1]) = I(4)
